@@ -71,7 +71,7 @@ func TestProp(t *testing.T) {
 		svc := rapid.SampledFrom([]string{"HTTP/svc.example.com", "HTTP/svc.example.com", "krbtgt/EXAMPLE.COM"}).Draw(t, "svc")
 		c := Base(et, rapid.Uint64().Draw(t, "seed"), svc)
 		c.ApplySettings(rapid.SampledFrom(skews).Draw(t, "skew"), rapid.Bool().Draw(t, "requireaddr"),
-			rapid.SampledFrom([]string{"", "", "A", "C"}).Draw(t, "clientaddr"),
+			rapid.SampledFrom([]string{"", "", "A", "C", "V6"}).Draw(t, "clientaddr"),
 			rapid.SampledFrom([]string{"", "", "", "alt", "missing"}).Draw(t, "ktprinc"), rapid.Bool().Draw(t, "decodepac"))
 		nd := rapid.SampledFrom([]int{0, 1, 1, 1, 2, 2}).Draw(t, "ndefects")
 		ds := []string{}
@@ -97,7 +97,7 @@ func TestProp(t *testing.T) {
 	var settings []setting
 	for _, sk := range skews {
 		for _, rq := range []bool{false, true} {
-			for _, ca := range []string{"", "A", "C"} {
+			for _, ca := range []string{"", "A", "C", "V6"} {
 				for _, kp := range []string{"", "alt", "missing"} {
 					for _, pd := range []bool{true, false} {
 						settings = append(settings, setting{sk, rq, ca, kp, pd})
